@@ -85,7 +85,10 @@ fn case(h: &H, idx: u64, kind: u64, rng: &mut Rng) {
             h.class("cart-vs-ellipsoid-methods");
             h.distinct(mix(hash_str(&en), idx));
             for _ in 0..40 {
-                let p = [rng.range(-3.14, 3.14), rng.range(-90.0, 90.0) * D2R, rng.range(-1.0e4, 1.0e5), 2020.5];
+                let mut p = [rng.range(-3.14, 3.14), rng.range(-90.0, 90.0) * D2R, rng.range(-1.0e4, 1.0e5), 2020.5];
+                if rng.chance(0.05) {
+                    p[1] = std::f64::consts::FRAC_PI_2.copysign(p[1]);
+                }
                 let (a, _) = apply1(&ctx, op, D::F, p);
                 let m = e.cartesian(&Coor4D(p)).0;
                 h.eval(2);
